@@ -128,6 +128,16 @@ def specStep (sh : Shadow) (o : Proto.Op) : Except String Shadow := do
       else
         if !hasFail obs "nonallocated" then throw s!"releasing {a}, which is not outstanding, was not reported as non-allocated"
         pure sh
+    -- the real MemoryLeakWarningPlugin around a test: the checking period starts at the pre action; at the post action it
+    -- ends and what the test left behind stops being "checking" (whatever the ignore / expect flags say), so that the next
+    -- test's checking period holds exactly the blocks allocated after ITS pre action
+    | ["plugin", "create"] => pure { sh with period := .enabled }
+    | ["plugin", "pre"] => pure { sh with period := .checking }
+    | ["plugin", "post"] =>
+      pure { sh with period := .enabled,
+                     live := sh.live.map (fun r => if r.period == .checking then { r with period := .enabled } else r) }
+    | ["plugin", "ignore"] => pure sh
+    | ["plugin", "expect", _] => pure sh
     | ["setcur", "new", ai] => pure { sh with curNew := ai.toNat?.getD 0 }
     | ["setcur", "newarray", ai] => pure { sh with curArr := ai.toNat?.getD 0 }
     | ["setcur", "malloc", ai] => pure { sh with curMal := ai.toNat?.getD 0 }
